@@ -2,7 +2,9 @@ SPEC = dict(
     id="C09",
     bin="c09",
     coq_dir="C09",
-    coq_targets=["C09/Proofs.vo", "C09/Proofs2.vo", "C09/Proofs3.vo", "C09/Proofs4.vo", "C09/Proofs5.vo", "C09/Examples.vo"],
+    coq_targets=["C09/Proofs.vo", "C09/Proofs2.vo", "C09/Proofs3.vo", "C09/Proofs4.vo", "C09/Proofs5.vo", "C09/Examples.vo",
+                 "C09/Fast.vo", "C09/Fast2.vo", "C09/ExamplesF.vo"],
+    props=["C09/Props.v", "C09/PropsF.v"],
     allowed_axioms=[],
     level_text=("Unbounded Coq theorems (no axioms) about an executable model of the glyf/loca writer (write-fonts "
                 "SimpleGlyph/CompositeGlyph/GlyfLocaBuilder/Loca) and reader (read-fonts Glyph::read, SimpleGlyph::points, "
@@ -19,21 +21,26 @@ SPEC = dict(
                 "off-curve neighbours and the elided contour draws exactly as the original (elision_lossless). The model is tied to the code on every run: ~3.8k boundary-rich cases (simple and composite glyphs, "
                 "mutated byte strings, Loca::new offsets around 0x1FFFE/0x20000, builder sequences incl. totals 0x1FFFC..0x20004) "
                 "are run through the real write-fonts/read-fonts code and through the model with vm_compute, byte-exact. "
-                "read_points_fast and the write-fonts BezPath/f64 front end are checked on the implementation only (oracle: unscaled "
+                "SimpleGlyph::read_points_fast (the reader skrifa draws with) is inside the model: wherever points_impl succeeds it returns Ok and points() is its result narrowed to i16, for any content of the caller's "
+                "flag slice (read_points_fast_eq_points); the writer never emits more flag bytes than points and read_points_fast returns "
+                "exactly the points written (fast_roundtrip); the model's read_points_fast is compared with the real one (dirty flag slice, "
+                "all 8 flag bits, wrong-length slices) on every simple glyph of the shards incl. ~400 foreign/malformed encodings. "
+                "The write-fonts BezPath/f64 front end is checked on the implementation only (oracle: unscaled "
                 "skrifa drawing vs the source path, and vs an independent contour->path reference in both path styles) — partial there."),
     level_note=("Trusted: Coq kernel; the hand-written model coq/C09/Model.v (its agreement with write-fonts/read-fonts is "
                 "checked case by case, not proved); the harness generators. The write-fonts BezPath front end is modelled for integer coordinates only (f64 rounding/isclose: implementation "
                 "oracle); skrifa to_path is modelled for quadratic outlines."),
-    technique="Coq proof (induction over the RLE state machine and the readers, lia, exhaustive byte sweeps by vm_compute) over a hand-written Gallina model + vm_compute correspondence with write-fonts/read-fonts + implementation-only oracle incl. skrifa drawing",
+    technique="Coq proof (induction over the RLE state machine and the readers, simulation of PointIter by read_points_fast, lia, exhaustive byte sweeps by vm_compute) over a hand-written Gallina model + vm_compute correspondence with write-fonts/read-fonts + implementation-only oracle incl. skrifa drawing",
     modelled=["write-fonts/src/tables/glyf/simple.rs: compute_point_deltas/flag_and_delta, RepeatableFlag::iter_from_flags + write_into (debug_assert), SimpleGlyph::write_into (asserts, `cur as u16 - 1`, padding), FromObjRef contour splitting",
               "write-fonts/src/tables/glyf/composite.rs: Component::compute_flag/write_into, Anchor/Transform write_into, CompositeGlyph::write_into (MORE_COMPONENTS, WE_HAVE_INSTRUCTIONS), From<ComponentFlags>; read-fonts Anchor/Transform::compute_flags",
               "write-fonts/src/tables/glyf/glyf_loca_builder.rs: add_glyph (validate, write, raw_loca), build; write-fonts/src/tables/loca.rs: LocaFormat::new, Loca::write_into; TableWriter::pad_to_2byte_aligned",
               "read-fonts generated_glyf.rs: Glyph::read, SimpleGlyph::read and getters, CompositeGlyph::read; read-fonts/src/tables/glyf.rs: resolve_coords_len, points_impl/PointIter (advance_flags, advance_points), ComponentIter, ComponentGlyphIdFlagsIter/count_and_instructions",
               "read-fonts/src/tables/loca.rs: Loca::read, get_raw, get_glyf",
+              "read-fonts/src/tables/glyf.rs: SimpleGlyph::num_points, read_points_fast::<i32> (length check, `while i < n_points` flag loop over all remaining bytes as of /repo 6f0a45e, advance_by, x/y passes with checked reads and i32 wrapping_add, ON_CURVE mask; the caller's flag slice is an input of the model)",
               "write-fonts/src/tables/glyf/simple.rs (integer coordinates): simple_glyphs_from_kurbo element handling, InterpolatableContourBuilder::build, is_implicit_on_curve, is_mid_point",
               "skrifa/src/outline/path.rs: to_path, contour_to_path (FreeType and HarfBuzz styles), PendingState::emit/finish (Empty/PendingQuad), ContourPoint::midpoint"],
     not_covered=["independence of skrifa drawing from caller-provided scratch memory (garbage-filled / reused buffers, unscaled and 2 ppem, both path styles): implementation oracle only, bitwise comparison with the fresh-memory draw",
-                 "SimpleGlyph::read_points_fast (the reader skrifa uses): implementation oracle only (compared with points() on every accepted glyph)",
+                 "read_points_fast: only C = i32 is modelled (F26Dot6/Fixed from_i32 shift and the spec_next mask are not); it equals points() only up to i16 narrowing (i32 accumulators, witness c09_fast_wrap_refuted) and reports Err(OutOfBounds) on truncated coordinate data where points() is silently empty",
                  "BezPath front end: modelled and proved for integer coordinates (from_path/elide/implicit, kind-7 tie); its f64 parts (isclose on non-integers, ot_round, multi-master interpolatable_glyphs_from_bezpaths, control box) are implementation oracle only; skrifa to_path is modelled (quadratic states) with well-formedness and elision-invariance theorems, cubic states not modelled (random integer line/quad paths drawn unscaled on a FontBuilder font and compared segment by segment)",
                  "flags_rle_shortest minimality among ALL flag encodings is not proved (only the exact length formula per run and the implementation-side comparison with an independently computed canonical length)",
                  "contour-count assert (>= 32767 contours) and 65535/65536-point glyphs: implementation only (too large for shards)"],
